@@ -50,6 +50,16 @@ def step (s : St) : Op → St
 
 def run (s : St) (ops : List Op) : St := ops.foldl step s
 
+/-- Two readers on ONE seeker (the situation after an early error reply: the transport of the
+    failed attempt may still be reading the body when the retry starts).  Each item is
+    (reader is the new attempt?, read size, what the source hands over); returns what the
+    new attempt received. -/
+def newAttemptReceives (s : St) : List (Bool × Nat × Bytes) → Bytes
+  | [] => []
+  | (isNew, n, d) :: t =>
+    let (s', out) := read s n d
+    (if isNew then out else []) ++ newAttemptReceives s' t
+
 /-- the invariant of §4/C06 -/
 structure Inv (s : St) : Prop where
   buf_prefix : s.buf = s.hist.take s.buf.length
